@@ -53,7 +53,9 @@ pub fn check_lib(h: &LHistory) -> CheckResult {
         if supplied.contains(&v) { return Err(format!("operation #{}: {} equals a value that was supplied as input", idx, what)); }
         if !drawn.insert(v) { return Err(format!("operation #{}: {} repeats a value drawn earlier in the history", idx, what)); }
         // a Curve25519 u-coordinate is < 2^255: its top byte is not uniform and is left out of the bias count
-        monobit(if what.contains("public key") { &v[..31] } else { &v[..] }); Ok(())
+        // bits a conforming implementation may fix are left out of the count: the top bit of a public key (always 0), and the
+        // first and last byte of an X25519 private key (RFC 7748 clamps them; an implementation may store keys clamped)
+        monobit(if what.contains("public key") { &v[..31] } else if what.contains("private key") && v.len() == 32 { &v[1..31] } else { &v[..] }); Ok(())
     };
     let mut seen_ops: HashSet<String> = HashSet::new(); let mut repeated = false; let mut multi = 0usize;
     for (idx, op) in h.ops.iter().enumerate() {
